@@ -250,9 +250,9 @@ def graph_spec(tier: str, light: bool = False) -> Dict[str, Any]:
         emax = int(os.environ["VERIF_E_MAX"])      # opt-in deeper sweep, e.g. VERIF_E_MAX=7 (4.5x10^6 graphs)
     # the same graphs under other names / insertion orders (families.labelings): every naming of the small classes
     if tier == "quick":
-        relabel = {"E2": "all", "E3": "all", "E4": "all", "E5": "one" if light else "few", "S2": "one", "D(S1,2)": "one", "FIG": "few"}
+        relabel = {"E2": "all+ns", "E3": "all+ns", "E4": "all+ns", "E5": "one" if light else "few", "S2": "one", "D(S1,2)": "one", "FIG": "few"}
     else:
-        relabel = {"E2": "all", "E3": "all", "E4": "all", "E5": "few" if light else "all", "E6": "one" if light else "few",
+        relabel = {"E2": "all+ns", "E3": "all+ns", "E4": "all+ns", "E5": "few+ns" if light else "all+ns", "E6": "one" if light else "few",
                    "S2": "few", "D(S1,3)": "one", "D(S2,1)": "one", "FIG": "all" if not light else "few", "BC(S)": "one"}
     if os.environ.get("VERIF_NO_RELABEL"):
         relabel = {}
